@@ -77,6 +77,29 @@ def mutants(name: str, data: bytes, tier: str):
             m = bytearray(data)
             struct.pack_into('>I', m, pos, v)
             yield (f'size@{pos}={v}', bytes(m))
+    # structural faults that keep the file well nested: a box renamed (one bit of its type), a box removed with the sizes
+    # of its ancestors repaired
+    try:
+        root = bmff.parse(data)
+    except bmff.Malformed:
+        return
+
+    def chains(node, chain):
+        for c in node.children:
+            yield chain + [c]
+            yield from chains(c, chain + [c])
+    for chain in chains(root, []):
+        b = chain[-1]
+        for i in range(4):
+            m = bytearray(data)
+            m[b.start + 4 + i] ^= 1
+            yield (f'retype@{b.start}.{i}', bytes(m))
+        m = bytearray(data)
+        for anc in chain[:-1]:
+            if not anc.long_header:
+                struct.pack_into('>I', m, anc.start, anc.size - b.size)
+        del m[b.start:b.end]
+        yield (f'drop@{b.start}', bytes(m))
 
 
 class _Timeout(BaseException):
@@ -282,6 +305,8 @@ def plan(ctx):
             elif label.startswith('trunc@'):
                 if tier != 'quick' or int(label[6:]) in bounds:
                     labs.append(label)
+            elif label.startswith(('retype@', 'drop@')):
+                labs.append(label)
             elif label.startswith('flip@'):
                 if tier == 'quick' and name != 'clear-fragment':
                     continue
@@ -289,9 +314,13 @@ def plan(ctx):
                 if tier != 'quick' or bit in (0, 7):
                     labs.append(label)
         if tier == 'quick':
+            keep = [x for x in labs if x.startswith(('retype@', 'drop@'))]
+            labs = [x for x in labs if not x.startswith(('retype@', 'drop@'))]
             labs = [x for i, x in enumerate(labs) if i % 3 == (0 if name == 'file3' else i % 3) or x.startswith('size@')]
             if name == 'file3':
                 labs = labs[::2]
+            # structural faults: all of them for the complete file, drops only for the fragments
+            labs += [x for x in keep if name == 'file3' or x.startswith('drop@')]
         if name in ('cenc-init',):
             labs = []       # the management surface takes complete files; covered by 'init' and the cenc fragment
         http_labels[name] = len(labs)
